@@ -6,7 +6,7 @@
    with the destination holding the nodes d0.  Quantifying over tr quantifies over every
    interleaving of the visible events of every schedule. *)
 From Oras Require Import Base.Prelude Generated.GC01 Model.CopySpec Model.CopyTop Model.CopyOpt
-  Proofs.CopySpec Proofs.CopyAcct Proofs.CopyOpt.
+  Model.CopyCancel Proofs.CopySpec Proofs.CopyAcct Proofs.CopyOpt Proofs.CopyCancel.
 Local Open Scope nat_scope.
 
 (* Success => every node reachable from the root (foreign layers cut) is in the
@@ -196,3 +196,45 @@ Example C01_examples_refpusher_mount_tworoots :
                 [ExB 3; ExE 3 true; Cb CSkip 3; ExB 2; ExE 2 true; Cb CSkip 2; Ret true] = Some st /\
               returned st = Some true).
 Proof. exact example_runs_more. Qed.
+
+(* ---- the caller's context ends during (or before) the call (Model/CopyCancel.v) ----
+   [caccepts_opt cs g c d0 tr = Some (s, full)]: tr is a recorded run with [Cancel] marks where
+   the harness ended the context; after a Cancel an error return is accepted in any state
+   (abandoned tasks), a SUCCESSFUL return still needs the root Done and nothing in progress --
+   the content of syncutil.Go's final "return context.Cause(ctx)".  So success means closure
+   and tag whatever cancellation did, and success without any event on the root is impossible
+   (the run "context ended before the root task started, yet nil" is not a run). *)
+Theorem C01_closure_under_cancellation :
+  forall (cs : cbset) (g : graph) (c : cfg) (d0 : list node) (tr : list cevent) (s : cstate)
+         (full : list event),
+    closed_nodes g d0 -> mt_consistent g ->
+    caccepts_opt cs g c d0 tr = Some (s, full) -> returned (cs_st s) = Some true ->
+    forall n, reach g (c_root c) n -> has g (dst (cs_st s)) n = true.
+Proof. exact closure_under_cancellation. Qed.
+Print Assumptions C01_closure_under_cancellation.
+
+Theorem C01_tagged_under_cancellation :
+  forall (cs : cbset) (g : graph) (c : cfg) (d0 : list node) (tr : list cevent) (s : cstate)
+         (full : list event),
+    caccepts_opt cs g c d0 tr = Some (s, full) -> returned (cs_st s) = Some true ->
+    c_mode c <> MGraph -> tag_ok g c = true -> tag (cs_st s) = Some (c_root c).
+Proof. exact tagged_under_cancellation. Qed.
+Print Assumptions C01_tagged_under_cancellation.
+
+Theorem C01_no_success_without_work :
+  forall (cs : cbset) (g : graph) (c : cfg) (d0 : list node) (tr : list cevent) (s : cstate)
+         (full : list event),
+    caccepts_opt cs g c d0 tr = Some (s, full) -> returned (cs_st s) = Some true ->
+    exists e, In (Ev e) tr /\ ev_node e = Some (c_root c).
+Proof. exact no_success_without_work. Qed.
+Print Assumptions C01_no_success_without_work.
+
+(* satisfiable: an already-ended context gives an error return with no event at all; a context
+   that ends after the work is done does not prevent success *)
+Example C01_examples_cancellation :
+  (exists s, caccepts_opt all_set g_ex c_ex [1] [Cancel; Ev (Ret false)] = Some (s, []) /\
+             returned (cs_st s) = Some false) /\
+  (exists s full, caccepts_opt (fun _ => false) g_ex c_ex [0; 1; 2; 3]
+                    [Ev (ExB 3); Ev (ExE 3 true); Ev (TagB 3); Cancel; Ev (TagE 3); Ev (Ret true)] = Some (s, full) /\
+                  returned (cs_st s) = Some true /\ tag (cs_st s) = Some 3).
+Proof. exact examples_cancellation. Qed.
